@@ -20,6 +20,9 @@ structure Frame where
   hash : Option String
   mdata : Option String
   ttl : Option TTL
+  /-- does the frame's JSON parse back (XsModel/Json.lean: nesting within serde_json's limit);
+      computed by the driver from the meta text -/
+  decodable : Bool := true
   deriving DecidableEq, Repr, Inhabited
 
 def u64Max : Nat := 2 ^ 64 - 1
